@@ -83,7 +83,7 @@ CLAIMS['C17'] = {
     'design': 'DESIGN.md section 5 C17',
 }
 CLAIMS['C19'] = {
-    'text': 'memory_input::at, begin_of_line, end_of_line and line_at are proved, for positions characterised by ghost offsets as obtained from this input, to return exactly the byte of the position, the start of its line and the first line ending of the input\'s policy at or after it (or the end of the input), always inside the input and without raising: at/begin_of_line for eager and lazy inputs under lf_crlf plus begin_of_line under cr_crlf; end_of_line (the real until< at< eolf > > loop on the nested lazy sub-input, under a loop contract, unbounded input length) for eager and lazy lf_crlf and for eager cr_crlf, lf, cr and crlf (all five shipped policies); line_at (eager and lazy, lf_crlf; real begin_of_line, end_of_line and string_view constructor below it) returns exactly the bytes from the start of the line to that line ending; when the input was constructed with default initial counters. With non-default initial counters the at/begin_of_line obligations fail (open known finding D9).',
+    'text': 'memory_input::at, begin_of_line, end_of_line and line_at are proved, for positions characterised by ghost offsets as obtained from this input, to return exactly the byte of the position, the start of its line and the first line ending of the input\'s policy at or after it (or the end of the input), always inside the input and without raising: at/begin_of_line for eager and lazy inputs under lf_crlf plus begin_of_line under cr_crlf; end_of_line (the real until< at< eolf > > loop on the nested lazy sub-input, under a loop contract, unbounded input length) for eager and lazy lf_crlf and for eager cr_crlf, lf, cr and crlf (all five shipped policies); line_at (eager and lazy under lf_crlf, eager under crlf and lf; real begin_of_line, end_of_line and string_view constructor below it) returns exactly the bytes from the start of the line to that line ending; when the input was constructed with default initial counters. With non-default initial counters the at/begin_of_line obligations fail (open known finding D9).',
     'note': 'end_of_line with non-default initial counters is not covered; end_of_line for lazy inputs under the four non-default policies only in the thorough tier; positions are characterised by ghost offsets, not traced through a parsing run; std::find is an assumed contract where an implementation of end_of_line uses it.',
     'design': 'DESIGN.md section 5 C19',
 }
